@@ -96,6 +96,7 @@ type Ctx struct {
 	Assumptions []string
 	TrustedBase []string
 	Census      map[string]int
+	floorsDone  bool
 }
 
 // ProcessStart is the time the checker started (includes loading).
@@ -158,6 +159,42 @@ func trimStack(b []byte) string {
 // Floor declares the minimum number of obligations a rule must produce.
 func (c *Ctx) Floor(rule string, n int) { c.floor[rule] = n }
 
+// ApplyFloors appends an undecided obligation for every rule whose instance
+// count is below its floor (idempotent).
+func (c *Ctx) ApplyFloors() {
+	if c.floorsDone {
+		return
+	}
+	c.floorsDone = true
+	counts := map[string]int{}
+	for _, o := range c.Obs {
+		counts[o.Rule]++
+	}
+	var rules []string
+	for r := range c.floor {
+		rules = append(rules, r)
+	}
+	sort.Strings(rules)
+	for _, r := range rules {
+		if counts[r] < c.floor[r] {
+			c.Obs = append(c.Obs, &Ob{Rule: r, Key: "instance-floor", Desc: "rule must find at least the instances confirmed by hand",
+				Status: StUndecided, Detail: fmt.Sprintf("found %d instances, floor is %d", counts[r], c.floor[r])})
+		}
+	}
+}
+
+// KnownKeys returns "rule|key" for every listed known finding of this property.
+func (c *Ctx) KnownKeys() []string {
+	known, _ := loadKnown(c.VerifDir)
+	var out []string
+	for _, k := range known {
+		if k.Prop == c.Prop {
+			out = append(out, k.Rule+"|"+k.Key)
+		}
+	}
+	return out
+}
+
 // known findings ---------------------------------------------------------
 
 type knownFinding struct {
@@ -207,22 +244,7 @@ func loadKnown(dir string) ([]knownFinding, error) {
 // Finish evaluates floors, writes evidence and violation files, prints the
 // verdict lines and returns the process exit code.
 func (c *Ctx) Finish() int {
-	// floors
-	counts := map[string]int{}
-	for _, o := range c.Obs {
-		counts[o.Rule]++
-	}
-	var rules []string
-	for r := range c.floor {
-		rules = append(rules, r)
-	}
-	sort.Strings(rules)
-	for _, r := range rules {
-		if counts[r] < c.floor[r] {
-			c.Obs = append(c.Obs, &Ob{Rule: r, Key: "instance-floor", Desc: "rule must find at least the instances confirmed by hand",
-				Status: StUndecided, Detail: fmt.Sprintf("found %d instances, floor is %d", counts[r], c.floor[r])})
-		}
-	}
+	c.ApplyFloors()
 
 	known, kerr := loadKnown(c.VerifDir)
 	if kerr != nil {
